@@ -28,8 +28,11 @@ for f in sorted(os.listdir(os.path.join(VERIF, "benign"))):
     try:
         res = {}
         anchors = []
-        for pid in claimed:
-            c = subprocess.run(["./check", pid], cwd=VERIF, capture_output=True, text=True)
+        from concurrent.futures import ThreadPoolExecutor
+        first = subprocess.run(["./check", claimed[0]], cwd=VERIF, capture_output=True, text=True)      # fills the fact cache
+        with ThreadPoolExecutor(max_workers=8) as ex:
+            rest = list(ex.map(lambda q: subprocess.run(["./check", q], cwd=VERIF, capture_output=True, text=True), claimed[1:]))
+        for pid, c in zip(claimed, [first] + rest):
             if c.returncode == 2 and "anchor name(s)" in c.stdout:
                 anchors.append(pid)      # a rename of an identifier listed in an anchor table: exit 2 by contract, never an alarm
             elif c.returncode != 0:
